@@ -159,6 +159,8 @@ def flags_unit(ecls, size, shift, order):
         p = parser(wire.copy('bytes'), order)
         I.call(I.getattr_(p, 'parse_numeric_flags'), ['f', size, ecls], dict(shift_left=shift))
         back = p.f['_parsed_values']['f']
+        if not isinstance(back, SFlags) and (not isinstance(back, (set, frozenset, list, tuple)) or any(V.is_symbolic(x) for x in back)):
+            raise E.Unsupported('the parsed flag set is a %s with symbolic members (not a flag set the check can read)' % type(back).__name__)
         bits = back.bits if isinstance(back, SFlags) else {m: z3.BoolVal(m in back) for m in ms}
         value = want * (2 ** shift)
         for m in ms:
